@@ -50,8 +50,8 @@ def catalog():
     add('stdnum.fr.siret', 'to_tva', 'stdnum.fr.tva', lambda v, r: str_eq(sl(len(tostr(r)) - 9)(r), sl(0, 9)(v)))
     add('stdnum.pe.cui', 'to_ruc', 'stdnum.pe.ruc', lambda v, r: str_eq(sl(2, 10)(r), sl(0, 8)(v)), inverse=('stdnum.pe.ruc', 'to_dni'), back=lambda v: FixedStr(tostr(v).chars[:8]))
     add('stdnum.in_.gstin', 'to_pan', 'stdnum.in_.pan', lambda v, r: str_eq(r, sl(2, 12)(v)))
-    add('stdnum.it.aic', 'to_base32', 'stdnum.it.aic', lambda v, r: True, inverse=('stdnum.it.aic', 'from_base32'), back=lambda v: v, pre=lambda n, v: n == 9)
-    add('stdnum.it.aic', 'from_base32', 'stdnum.it.aic', lambda v, r: True, inverse=('stdnum.it.aic', 'to_base32'), back=lambda v: v, pre=lambda n, v: n == 6)
+    # validate() of the base-32 presentation returns the base-10 number: validate(to_base32(v)) == v is the round trip
+    add('stdnum.it.aic', 'to_base32', 'stdnum.it.aic', lambda v, r: str_eq(r, v), pre=lambda n, v: n == 9)
     add('stdnum.ie.vat', 'convert', 'stdnum.ie.vat', lambda v, r: str_eq(sl(0, 7)(r)[:0] if False else sl(0, 0)(r), ''))
     return C
 
@@ -63,6 +63,18 @@ def native_violation(entry, x, today=None):
     if rv[0] != 'return':
         return None
     v = rv[1]
+    if entry['pre'] is not None and entry['pre'](len(v), v) is False:
+        return None
+    if entry['fn'] == 'to_isbn10' and len(v) == 13 and not v.startswith('978'):
+        return None
+    # the converters take a number of the source format in any presentation with separators - not another encoding of
+    # it (AIC base-32 text, zero-padded account numbers): such inputs are converted from their canonical form
+    try:
+        cx = importlib.import_module(src).compact(x)
+        if len(cx) != len(v):
+            x = v
+    except Exception:      # noqa: B902
+        x = v
     r = call_real('%s:%s' % (src, entry['fn']), [x], entry['kw'], today)
     if r[0] == 'raise':
         if is_validation_error(r) and entry['fn'] in ('to_isbn10', 'to_dni'):
@@ -143,6 +155,7 @@ def checker_factory(modname, entries):
                             raise
                 return (r, d, b)
             try:
+                u0 = getattr(sw, 'unknowns', 0)
                 paths, status = sw.closure(p, run, budget=600, time_limit=60)
             except Unsupported as u:
                 sw.undecided.append(dict(n=n, why='%s: outside the subset: %s' % (e['fn'], u)))
@@ -189,7 +202,7 @@ def checker_factory(modname, entries):
                 okall = False
                 sw.finding('conversion breaks validity or identity', '%s: %s' % (e['fn'], what), input=x, opts=opts, today=today, approx=ctx.approx or bool(getattr(ctx, 'soft', None)),
                            real=desc, reproduced=desc is not None, conv=e['fn'])
-            sw.obligations.append((oid, 'proved' if okall else 'refuted', '%d paths' % len(paths)))
+            sw.obligations.append((oid, ('undecided' if getattr(sw, 'unknowns', 0) > u0 else 'proved') if okall else 'refuted', '%d paths' % len(paths)))
         if not sw.samples:
             sw.samples.append(dict(n=n, converters=[e['fn'] for e, _, _, _ in funcs]))
     return checker
@@ -227,7 +240,7 @@ def bounded(rep, tier):
         if e['fn'] == 'convert':
             continue
         mod = importlib.import_module(e['src'])
-        for x in corpus.valid_numbers(e['src'], 8 if tier == 'quick' else 40):
+        for x in corpus.valid_numbers(e['src'], 8 if tier == 'quick' else 40) + corpus.synth_valid(e['src'], 60 if tier == 'quick' else 600, int(os.environ.get('VERIF_SEED', '0') or 0)):
             try:
                 v = mod.validate(x)
             except Exception:      # noqa: B902
@@ -356,9 +369,16 @@ def check(prop, tier, args):
         seen = {}
         for oid, st, detail in r['obligations']:
             key = 'C08/%s/%s' % (m, oid)
-            seen[key] = 'refuted' if st != 'proved' or seen.get(key) == 'refuted' else 'proved'
+            if st == 'refuted' or seen.get(key) == 'refuted':
+                seen[key] = 'refuted'
+            elif st == 'undecided' or seen.get(key) == 'undecided':
+                seen[key] = 'undecided'
+            else:
+                seen[key] = 'proved'
         und = {u['why'].split(':')[0] for u in r['undecided']}
         for key, st in seen.items():
+            if st == 'undecided':
+                rep.add(key, 'undecided', detail='solver unknown on a refutation candidate')
             if st == 'proved':
                 if key.rsplit('/', 1)[1] in und:
                     rep.add(key, 'undecided', detail='some accepting path left the subset')
